@@ -105,6 +105,19 @@ fn case_inner(sink: &mut Sink, model: &mut Model, key: &KeyInfo, meta: &Metadata
     sink.oracle(same, "signature is not over the reference canonical JSON", &replay);
     sink.oracle(verify_accepts(meta, &key.key, &reference), "signature made over the reference canonical JSON is rejected", &replay);
     sink.stat(&format!("{}/{}", class, if same { "ref-equal" } else { "ref-differs" }));
+    // the bytes the crate itself hands out for the metadata (`to_bytes`, on the wrapper and on the trait
+    // object a builder is fed with) are one canonical JSON text, and signing its signable form is
+    // signing the reference encoding
+    {
+        use in_toto::interchange::{DataInterchange, Json};
+        let (m2, m3) = (meta.clone(), meta.clone());
+        let a = guarded(move || m2.to_bytes()).ok().and_then(|r| r.ok());
+        let b = guarded(move || m3.into_trait().to_bytes()).ok().and_then(|r| r.ok());
+        let c = Json::canonicalize(&j).ok();
+        sink.oracle(a.is_some() && a == b && a == c, "to_bytes of the metadata (wrapper / trait object) is not the canonical JSON of its serialisation", &replay);
+        let ty = meta.clone().into_trait().typ();
+        sink.oracle(format!("{}", ty) == j["_type"].as_str().unwrap_or("?"), "the metadata reports another type than its `_type` member", &replay);
+    }
     // the harness's reference encoder and the Lean `refCanon` must agree (reference vs reference)
     sink.op(&format!("refcanon {}", p), &format!("ok {}", hex(&reference)), true);
 }
